@@ -11,7 +11,7 @@ LEVEL = 'fault_enumeration'
 RULE = ('case = (stream bytes incl. sentinel tail, Content-Length below/equal/above the bytes available, buffer = '
         'max_memfile_size, read-fragmentation pattern = caps for successive read() calls, entry point '
         '_body_read | Request.body through WSGI read twice, content type none / octet-stream / JSON / urlencoded / multipart with a well-formed body whose closing delimiter '
-        'is followed by an epilogue, max_body_size unset, >= Content-Length incl. equal, or below it (413 expected, the read audit still applies); wsgi.input = fragmenting stream or a real seekable stream that stands behind the bytes of an earlier request). Hypothesis-generated plus exhaustive enumeration of all '
+        'is followed by an epilogue, max_body_size unset, >= Content-Length incl. equal, or below it (413 expected, the read audit still applies); wsgi.input = fragmenting stream or a real seekable stream that stands behind the bytes of an earlier request; declared lengths up to 2^31 with an early end of stream; the wsgi.input_terminated flag set or not). Hypothesis-generated plus exhaustive enumeration of all '
         'compositions (cap sequences) of every body length <= 9 for buffers 1..11. Oracle: body == first '
         'min(CL, available) stream bytes; no read(n) asks for more than CL minus bytes already delivered; no '
         'read(-1). Non-trivial = at least one short read happened, or CL != available, or the body spilled to a '
@@ -27,7 +27,7 @@ CTYPES = [None, None, 'application/octet-stream', 'multipart/form-data; boundary
 
 
 def _strategy():
-    def build(data, clmode, delta, buf, pattern, via, anycl, ctype, mp, epi, maxb, stream_kind):
+    def build(data, clmode, delta, buf, pattern, via, anycl, ctype, mp, epi, maxb, stream_kind, huge, term):
         if mp and ctype and ctype.startswith('multipart/'):
             data = MP_BODY + epi + data[:delta % 7]          # a well-formed multipart body (closing delimiter + epilogue) followed by a few sentinel bytes
             if clmode == 'eq':
@@ -43,7 +43,14 @@ def _strategy():
             cl = len(MP_BODY + epi)
         else:
             cl = anycl
+        if huge is not None and clmode in ('above', 'any'):
+            cl = huge                                   # a large declared length with an early end of stream (aborted upload)
         case = {'data': data, 'cl': cl, 'buf': buf, 'pattern': pattern, 'via': via if ctype is None else 'wsgi', 'ctype': ctype}
+        if term is not None:
+            case['via'] = 'wsgi'
+            case['input_terminated'] = term
+            if term and clmode == 'any':
+                case['cl'] = cl = 0
         if maxb is not None:
             case['max_body'] = max(0, cl + maxb)         # >= 0: a limit the body does not exceed (equal when maxb == 0); < 0: the body is over the limit
             if maxb < 0:
@@ -62,7 +69,8 @@ def _strategy():
         st.integers(0, 400),
         st.sampled_from(CTYPES), st.booleans(), st.sampled_from([b'', b'\r\n', b'\r\nepilogue text', b'\r\n\r\nmore']),
         st.sampled_from([None, None, None, 0, 0, 1, 1000, -1, -7, -1000]),
-        st.sampled_from([None, None, None, 'bytesio_at_offset', 'bufferedreader_at_offset']))
+        st.sampled_from([None, None, None, 'bytesio_at_offset', 'bufferedreader_at_offset']),
+        st.sampled_from([None, None, None, 2**20, 2**20 + 1, 3 * 2**20, 2**31]), st.sampled_from([None, None, None, True, True, False]))
 
 
 def _read_direct(case, stream):
@@ -92,7 +100,10 @@ def _read_wsgi(case, stream):
         seen['spilled'] = type(rq.body).__name__ != 'BytesIO'
         return b1
 
-    env = make_environ('POST', '/b', stream=stream, content_length=case['cl'], headers=({'Content-Type': case['ctype']} if case.get('ctype') else None))
+    extra = {}
+    if case.get('input_terminated') is not None:
+        extra['wsgi.input_terminated'] = case['input_terminated']       # a server flag; Content-Length still bounds the body
+    env = make_environ('POST', '/b', stream=stream, content_length=case['cl'], headers=({'Content-Type': case['ctype']} if case.get('ctype') else None), extra=extra)
     r = call_app(app, env)
     if r.escaped is not None:
         raise CheckFailure(f'exception escaped: {fmt_exc(r.escaped)}')
@@ -193,6 +204,12 @@ def check_case(ctx, case):
             ctx.count('content_length_equals_max_body_size')
     if case.get('stream'):
         ctx.count('seekable_stream_positioned_after_earlier_bytes')
+    if cl >= 2**20:
+        ctx.count('declared_length_of_a_megabyte_or_more')
+    if case.get('input_terminated'):
+        ctx.count('wsgi_input_terminated_flag')
+        if cl == 0 and data:
+            ctx.count('wsgi_input_terminated_with_content_length_0')
     if short or spilled or cl != len(data):
         ctx.nontrivial(case, sample=case)
 
@@ -226,6 +243,15 @@ def run(ctx):
                 for buf in range(1, B + 1):
                     ctx.guarded(check_case, {'data': data, 'cl': n, 'buf': buf, 'pattern': parts + [1], 'via': 'direct'})
         ctx.count('exhaustive_compositions_upto_len', N)
+        for cl in (0, 1, 5, 2**20, 2**20 + 7):
+            for n_ in (0, 3, 40):
+                for term in (True, False, None):
+                    for buf in (4, 64):
+                        c = {'data': bytes(range(65, 65 + n_)), 'cl': cl, 'buf': buf, 'pattern': [3], 'via': 'wsgi', 'ctype': None}
+                        if term is not None:
+                            c['input_terminated'] = term
+                        ctx.guarded(check_case, c)
+        ctx.count('declared_length_grid')
     n = 5000 if ctx.tier == 'quick' else 40000
     ctx.hyp(_strategy(), check_case, n)
 
